@@ -4,6 +4,7 @@ import os
 
 # property -> rules deciding its structural clauses (DESIGN.md section 4)
 PROPS = {
+    'C11': ['COW'],
     'C20': ['INIT', 'FALLOFF'],
 }
 
